@@ -940,6 +940,9 @@ def robust_bases(tier, wd, rng):
     stats.append(st)
     f0 = [c for c in fr if len(c["ops"]) == 0][0]
     bases.append({"file": f0["file"], "fields": f0["fields"], "kind": "spec-rendered fragmented movie"})
+    st, fd = gen_mc("MC_Layout", "MC_Layout_fragdef0", wd, tier, coverage=False)
+    stats.append(st)
+    bases.append({"file": fd[0]["file"], "fields": fd[0]["fields"], "kind": "spec-rendered fragmented movie, run without per-sample sizes (tfhd default size)"})
     st, sp = gen_mc("MC_Frag", "MC_Frag_q", wd, tier, coverage=False)
     stats.append(st)
     s0 = [c for c in sp if c["delivery"] == "split" and c["ntracks"] == 2 and c["nfrag"] == 2 and c["durMode"] == "per" and c["ctsMode"] == "v0"][0]
@@ -994,7 +997,25 @@ def run_robust_base(idx, base, wd, profile):
     write_ndjson(bp, [base])
     exe = build_harness(profile)
     rc, out = run([exe, "robust-run", bp, tp], timeout=5400)
-    crashed = rc != 0
+    hung = rc == 97
+    crashed = rc != 0 and not hung
+    if hung:
+        # an execution did not return within the watchdog's limit: the worker wrote it to <trace>.hang and ended
+        good = []
+        for l in open(tp, errors="replace"):
+            try:
+                json.loads(l)
+                good.append(l if l.endswith("\n") else l + "\n")
+            except ValueError:
+                pass
+        try:
+            hev = json.load(open(tp + ".hang"))
+        except (OSError, ValueError):
+            raise ToolError("worker of base %d ended with the watchdog's code but left no record" % idx)
+        with open(tp, "w") as f:
+            f.writelines(good)
+            f.write(json.dumps({"e": "reset", "id": "base-%d" % idx}) + "\n")
+            f.write(json.dumps(hev) + "\n")
     if crashed:
         # the worker died (abort / stack overflow / kill): find the input it was executing
         cur = tp + ".cur"
